@@ -495,6 +495,13 @@ def c16(tier):
                        "values containing expression delimiters are excluded as the property says"])
 
 
+@reg("selftest")
+def selftest(tier):
+    """Not a property: the validators reject corrupted traces / a mutated specification (DESIGN.md 4.4)."""
+    from . import selftest as ST
+    return ST.run()
+
+
 @reg("conform")
 def conform(tier):
     """Not a property: code -> spec conformance of Spec B over all families (divergences must be 0)."""
